@@ -1,5 +1,6 @@
 import FV.Props.Catalog
 import FV.C05C06
+import FV.WalkAll
 /-! # C05 — `size()` is the exact extent
 
 `Dict.size s` is `from_bytes(s).size()`. Stated over *every valid image*, which contains every state reachable
@@ -15,7 +16,23 @@ theorem C05_size_exact (t : Ty) (h : t.WF) (s : Slice) (hv : t.dict.validate s =
       t.dict.validate (s.take z) = .ok () ∧ t.dict.size (s.take z) = .ok z :=
   FV.C05_size_exact t h s hv
 
+/-- **C05 (content).** For every valid value the deep read through the accessors succeeds, and the value mapped from its first
+`size()` bytes alone reads as the *same content* (capacities aside): nothing outside the first `size()` bytes contributes. -/
+theorem C05_truncation_same_content (t : Ty) (h : t.WF) (s : Slice) (hv : t.dict.validate s = .ok ()) (z : Nat)
+    (hz : t.dict.size s = .ok z) :
+    (∃ v, t.dict.walk s = .ok v) ∧ (t.dict.walk (s.take z)).map Val.strip = (t.dict.walk s).map Val.strip := by
+  obtain ⟨ha, hl, hu⟩ := validate_ok_iff.1 hv
+  refine ⟨(Ty.walkLaw t h).total s hl hu, ?_⟩
+  obtain ⟨z', hz', hzle, _, _⟩ := (Ty.frameLaw t h).size_ok s ha hl hu
+  have : z' = z := by simp only [Dict.sizeV] at hz'; rw [hz] at hz'; cases hz'; rfl
+  subst this
+  exact walk_loc t.dict (Ty.frameLaw t h) (Ty.walkLaw t h) s z' ha hl hu hz (s.take z') rfl
+    (by simp only [Slice.len_take]; omega) (by simp only [Slice.take, List.take_take, Nat.min_self])
+
 /-- non-vacuity: a valid 16-byte image of `E1` (variant `C`, one element) whose extent is 12 -/
 example : E1.WF ∧ E1.dict.validate ⟨0, [2,0,0,0, 1,0, 1,0, 5,0,0,0, 9,9,9,9]⟩ = .ok () ∧
     E1.dict.size ⟨0, [2,0,0,0, 1,0, 1,0, 5,0,0,0, 9,9,9,9]⟩ = .ok 12 := ⟨E1_wf, by decide, by decide⟩
+/-- … which reads as variant 2 with fields `1` and a one-element vector (capacity 8 in the 16-byte slice, 4 in its own 12 bytes) -/
+example : E1.dict.walk ⟨0, [2,0,0,0, 1,0, 1,0, 5,0,0,0, 9,9,9,9]⟩ = .ok (.tag 2 [.raw [1], .vec 8 [.raw [5]]]) ∧
+    E1.dict.walk ⟨0, [2,0,0,0, 1,0, 1,0, 5,0,0,0]⟩ = .ok (.tag 2 [.raw [1], .vec 4 [.raw [5]]]) := ⟨rfl, rfl⟩
 end FV.Props
